@@ -58,10 +58,12 @@ TASKS = {
     "layer1/Circuit.nodes": refine_task("Circuit.nodes", {"": []}, []),
     "layer1/Circuit.edges": refine_task("Circuit.edges", {"": []}, []),
     "layer1/Circuit.connect": refine_task("Circuit.connect", {"str,str": ["str", "str"], "list,list": ["list", "list"], "str,list": ["str", "list"],
-                                                             "list,str": ["list", "str"], "set,str": ["set", "str"], "str,set": ["str", "set"]},
+                                                             "list,str": ["list", "str"], "set,str": ["set", "str"], "str,set": ["str", "set"],
+                                                             "list,set": ["list", "set"], "set,list": ["set", "list"], "set,set": ["set", "set"]},
                                           ["us", "vs"], typed=True),
     "layer1/Circuit.disconnect": refine_task("Circuit.disconnect", {"str,str": ["str", "str"], "list,list": ["list", "list"], "str,list": ["str", "list"],
-                                                                   "list,str": ["list", "str"], "set,str": ["set", "str"], "str,set": ["str", "set"]}, ["us", "vs"]),
+                                                                   "list,str": ["list", "str"], "set,str": ["set", "str"], "str,set": ["str", "set"],
+                                                                   "list,set": ["list", "set"], "set,list": ["set", "list"], "set,set": ["set", "set"]}, ["us", "vs"]),
     "layer1/Circuit.remove": refine_task("Circuit.remove", {"str": ["str"], "list": ["list"], "set": ["set"]}, ["ns"]),
 }
 
